@@ -87,17 +87,52 @@ pub fn history_for(spec: &PropSpec, root: u64, index: u64) -> History {
 }
 
 /// Runs one history in a fresh thread (std caches hash-map keys per thread).
+/// Real seconds a sequential simulation may take before it is declared blocked (a normal one takes milliseconds).
+pub const HANG_SECS: u64 = 25;
+
+/// Set once a simulation of this process blocked for real: its thread cannot be recovered, so the process finishes what
+/// it has and exits.
+pub static PROCESS_HAS_STUCK_THREAD: std::sync::atomic::AtomicBool = std::sync::atomic::AtomicBool::new(false);
+
 pub fn run_in_thread(h: &History) -> RunResult {
     let h2 = h.clone();
-    std::thread::Builder::new()
+    let (tx, rx) = std::sync::mpsc::channel();
+    let handle = std::thread::Builder::new()
         .stack_size(16 << 20)
-        .spawn(move || exec::run_history(&h2))
-        .unwrap()
-        .join()
-        .unwrap_or_else(|_| {
+        .spawn(move || {
+            let r = exec::run_history(&h2);
+            let _ = tx.send(r);
+        })
+        .unwrap();
+    match rx.recv_timeout(std::time::Duration::from_secs(HANG_SECS)) {
+        Ok(r) => {
+            let _ = handle.join();
+            r
+        }
+        Err(std::sync::mpsc::RecvTimeoutError::Disconnected) => {
             eprintln!("HARNESS ERROR: simulation thread died");
             std::process::exit(2)
-        })
+        }
+        Err(std::sync::mpsc::RecvTimeoutError::Timeout) => {
+            // The tower is single-threaded here: an operation that does not return is waiting for something only it could
+            // provide (a lock it already holds, a notification nobody else sends). That is C11's subject.
+            PROCESS_HAS_STUCK_THREAD.store(true, std::sync::atomic::Ordering::SeqCst);
+            let i = exec::CUR_OP_GLOBAL.load(std::sync::atomic::Ordering::SeqCst) as usize;
+            let kind = h.ops.get(i).map(|o| o.kind().to_string()).unwrap_or_else(|| "boot".into());
+            RunResult {
+                found: vec![exec::Found {
+                    op_index: i,
+                    op_kind: kind.clone(),
+                    v: crate::model::viol(
+                        "C11",
+                        "hang",
+                        format!("operation #{i} ({kind}) did not return within {HANG_SECS} s of real time with nothing else running: the tower waits on itself"),
+                    ),
+                }],
+                stats: Default::default(),
+            }
+        }
+    }
 }
 
 pub fn signature(property: &str, f: &Found) -> String {
@@ -350,8 +385,15 @@ pub fn cmd_worker(args: &[String]) -> i32 {
                 continue;
             }
             handled.insert(sig.clone());
-            // minimise, persist, verify in a fresh process
-            let min = crate::minimize::minimise(&h, spec.id, &sig, 250);
+            // minimise, persist, verify in a fresh process (a hang costs HANG_SECS per attempt and leaves a stuck thread
+            // behind each time: only the suffix after the hanging operation is cut)
+            let min = if f.v.clause == "hang" {
+                let mut m = h.clone();
+                m.ops.truncate(f.op_index + 1);
+                m
+            } else {
+                crate::minimize::minimise(&h, spec.id, &sig, 250)
+            };
             let dir = verif_dir().join("replays");
             let _ = std::fs::create_dir_all(&dir);
             let path = dir.join(format!("{}-{}-{}.json", spec.id, h.seed, sig8(&sig)));
@@ -381,12 +423,22 @@ pub fn cmd_worker(args: &[String]) -> i32 {
             }
             out.violations.push((sig, path.to_string_lossy().to_string(), f.v.detail.clone()));
         }
+        if PROCESS_HAS_STUCK_THREAD.load(std::sync::atomic::Ordering::SeqCst) {
+            break;
+        }
+        }
+        if PROCESS_HAS_STUCK_THREAD.load(std::sync::atomic::Ordering::SeqCst) {
+            break;
         }
         i += step;
     }
     out.nontrivial_hashes = nontrivial.into_iter().collect();
     out.model_states = states.into_iter().collect();
     std::fs::write(outfile, serde_json::to_vec(&out).unwrap()).unwrap();
+    if PROCESS_HAS_STUCK_THREAD.load(std::sync::atomic::Ordering::SeqCst) {
+        // a stuck simulation thread is still alive: leave without waiting for it
+        std::process::exit(0);
+    }
     0
 }
 
@@ -549,7 +601,8 @@ fn client_worker(
                 continue;
             }
             handled.insert(sig.clone());
-            let min = minimise_client(&h, spec.id, &sig, 120);
+            // (a run that blocks for real costs a minute per attempt and leaves a stuck thread behind: not minimised)
+            let min = if f.clause == "client_wedged_for_real" { h.clone() } else { minimise_client(&h, spec.id, &sig, 120) };
             let dir = verif_dir().join("replays");
             let _ = std::fs::create_dir_all(&dir);
             let path = dir.join(format!("{}-{}-{}.json", spec.id, seed, sig8(&sig)));
@@ -579,6 +632,14 @@ fn client_worker(
             }
             out.violations.push((sig, path.to_string_lossy().to_string(), f.detail.clone()));
         }
+        if PROCESS_HAS_STUCK_THREAD.load(std::sync::atomic::Ordering::SeqCst) {
+            break;
+        }
+        }
+        if PROCESS_HAS_STUCK_THREAD.load(std::sync::atomic::Ordering::SeqCst) {
+            out.nontrivial_hashes = nontrivial.into_iter().collect();
+            std::fs::write(outfile, serde_json::to_vec(&out).unwrap()).unwrap();
+            std::process::exit(0);
         }
         i += step;
     }
@@ -881,10 +942,17 @@ pub fn cmd_check(args: &[String]) -> i32 {
     let seq_secs = match id.as_str() {
         "C11" => secs / 2,
         "C08" => secs * 3 / 4,
-        "C04" => secs * 4 / 5,
+        "C04" | "C02" => secs * 4 / 5,
         _ => secs,
     };
     let mut b = run_batch(&id, root, runs, seq_secs, jobs, false, thorough, false);
+    if id == "C02" {
+        // last fifth of the budget: requests racing with the block that purges their owner (nothing may be submitted for an
+        // appointment once the purge of its owner has been committed)
+        let c = run_batch(&id, root, u64::MAX / 4, secs - seq_secs, jobs, false, thorough, true);
+        merge_into(&mut b.merged, c.merged);
+        b.wall += c.wall;
+    }
     if id == "C04" {
         // last fifth of the budget: requests falling between two chain events of one poll (a disconnection and the next
         // connection) and racing with them; a tracker recorded as confirmed must name the true height of its penalty
@@ -1057,11 +1125,14 @@ pub fn expected_probes(id: &str) -> &'static [&'static str] {
 fn determinism_check(id: &str, root: u64, n: u64) -> Result<(), String> {
     let a = run_batch(id, root, n, 600, 3, true, false, false);
     let b = run_batch(id, root, n, 600, 7, true, false, false);
-    if (a.merged.digests.len() as u64) < n || a.merged.digests.len() != b.merged.digests.len() {
+    // A simulation that blocks for real ends its worker early (the finding is reported by the main batch): the digests
+    // of the runs that were executed are still compared below.
+    let hung = a.merged.violations.iter().chain(b.merged.violations.iter()).any(|v| v.0.contains("|hang|"));
+    if !hung && ((a.merged.digests.len() as u64) < n || a.merged.digests.len() != b.merged.digests.len()) {
         return Err(format!("expected >= {n} digests, got {} and {}", a.merged.digests.len(), b.merged.digests.len()));
     }
     for (i, d) in a.merged.digests.iter() {
-        if b.merged.digests.get(i) != Some(d) {
+        if b.merged.digests.get(i).map(|x| x != d).unwrap_or(!hung) {
             return Err(format!("run index {i}: event-log digest differs between two executions"));
         }
     }
@@ -1069,8 +1140,9 @@ fn determinism_check(id: &str, root: u64, n: u64) -> Result<(), String> {
     // with 3 workers almost all of them are later ones (this is the comparison that would have caught the first-run leak
     // described in DESIGN.md 8.5).
     let c = run_batch(id, root, n, 600, 32, true, false, false);
+    let hung = hung || c.merged.violations.iter().any(|v| v.0.contains("|hang|"));
     for (i, d) in a.merged.digests.iter() {
-        if c.merged.digests.get(i) != Some(d) {
+        if c.merged.digests.get(i).map(|x| x != d).unwrap_or(!hung) {
             return Err(format!("run index {i}: event-log digest differs between an early and a late execution within a process"));
         }
     }
